@@ -412,13 +412,27 @@ def sr_facts(cl, f):
             ms = marks(body)
             ad = first(ms, lambda m: m[1] == 'call:' + inner and m[3] in ('dispatcher', 'callbackList'), 'add', required=False)
             pb = first(ms, lambda m: m[1] in ('call:push_back', 'call:emplace_back') and m[3] == 'itemList', 'record', required=False)
+            rms = ms
+            if ad is not None and pb is None:
+                # the recording step may live in a member function of its own (a private helper a refactoring extracts):
+                # a call of a ScopedRemover member whose body does the push_back; the rollback is then looked for there
+                for m in ms:
+                    if not m[1].startswith('call:'):
+                        continue
+                    for decl2, body2 in cl.methods(C).get(m[1][5:], []):
+                        ms2 = marks(body2)
+                        if any(x[1] in ('call:push_back', 'call:emplace_back') and x[3] == 'itemList' for x in ms2):
+                            pb, rms = m[0], ms2
+                            break
+                    if pb is not None:
+                        break
             if ad is None or pb is None:
                 raise Untranslatable('ScopedRemover::%s: add call / itemList.push_back not found' % name)
             seen.add(name)
             add_first = add_first and ad < pb
             # rollback: push_back lies inside a try block whose handler detaches the listener again and rethrows
             rb = False
-            for m in ms:
+            for m in rms:
                 if m[1] == 'try':
                     tr = m[2]
                     parts = kids(tr)
